@@ -1031,3 +1031,156 @@ func lemmaRT4RDMapRule(op *Opt4RDMapRule) {
 	verifAssert(dhcpv4.SpecMaskOnes(string(q.Prefix4.Mask)) == dhcpv4.SpecMaskOnes(string(op.Prefix4.Mask)))
 	verifAssert(dhcpv4.SpecMaskOnes(string(q.Prefix6.Mask)) == dhcpv4.SpecMaskOnes(string(op.Prefix6.Mask)))
 }
+
+// ---------- C06: decode -> encode -> decode is a fixpoint (DHCPv6 options; real code, checked against the contracts) ----------
+
+//@ contract lemmaFixElapsedTime
+func lemmaFixElapsedTime(data []byte) {
+	var q optElapsedTime
+	if q.FromBytes(data) != nil {
+		return
+	}
+	b := q.ToBytes()
+	var r optElapsedTime
+	err := r.FromBytes(b)
+	verifAssert(err == nil)
+	verifAssert(r.ElapsedTime == q.ElapsedTime)
+	b2 := r.ToBytes()
+	verifAssert(string(b2) == string(b))
+}
+
+//@ contract lemmaFixInformationRefreshTime
+func lemmaFixInformationRefreshTime(data []byte) {
+	var q optInformationRefreshTime
+	if q.FromBytes(data) != nil {
+		return
+	}
+	b := q.ToBytes()
+	lemmaU32At(string(b), 0, specSecs(int(q.InformationRefreshtime)))
+	var r optInformationRefreshTime
+	err := r.FromBytes(b)
+	verifAssert(err == nil)
+	verifAssert(r.InformationRefreshtime == q.InformationRefreshtime)
+	b2 := r.ToBytes()
+	verifAssert(string(b2) == string(b))
+}
+
+//@ contract lemmaFixStatusCode
+func lemmaFixStatusCode(data []byte) {
+	var q OptStatusCode
+	if q.FromBytes(data) != nil {
+		return
+	}
+	b := q.ToBytes()
+	var r OptStatusCode
+	err := r.FromBytes(b)
+	verifAssert(err == nil)
+	verifAssert(r.StatusCode == q.StatusCode && r.StatusMessage == q.StatusMessage)
+	b2 := r.ToBytes()
+	verifAssert(string(b2) == string(b))
+}
+
+//@ contract lemmaFixRemoteID
+func lemmaFixRemoteID(data []byte) {
+	var q OptRemoteID
+	if q.FromBytes(data) != nil {
+		return
+	}
+	b := q.ToBytes()
+	var r OptRemoteID
+	err := r.FromBytes(b)
+	verifAssert(err == nil)
+	verifAssert(r.EnterpriseNumber == q.EnterpriseNumber && string(r.RemoteID) == string(q.RemoteID))
+	b2 := r.ToBytes()
+	verifAssert(string(b2) == string(b))
+}
+
+//@ contract lemmaFixClientLinkLayerAddress
+func lemmaFixClientLinkLayerAddress(data []byte) {
+	var q optClientLinkLayerAddress
+	if q.FromBytes(data) != nil {
+		return
+	}
+	b := q.ToBytes()
+	var r optClientLinkLayerAddress
+	err := r.FromBytes(b)
+	verifAssert(err == nil)
+	verifAssert(r.LinkLayerType == q.LinkLayerType && string(r.LinkLayerAddress) == string(q.LinkLayerAddress))
+	b2 := r.ToBytes()
+	verifAssert(string(b2) == string(b))
+}
+
+//@ contract lemmaFixNII
+func lemmaFixNII(data []byte) {
+	var q OptNetworkInterfaceID
+	if q.FromBytes(data) != nil {
+		return
+	}
+	b := q.ToBytes()
+	var r OptNetworkInterfaceID
+	err := r.FromBytes(b)
+	verifAssert(err == nil)
+	verifAssert(r.Typ == q.Typ && r.Major == q.Major && r.Minor == q.Minor)
+	b2 := r.ToBytes()
+	verifAssert(string(b2) == string(b))
+}
+
+//@ contract lemmaFixRelayPort
+func lemmaFixRelayPort(data []byte) {
+	var q optRelayPort
+	if q.FromBytes(data) != nil {
+		return
+	}
+	b := q.ToBytes()
+	var r optRelayPort
+	err := r.FromBytes(b)
+	verifAssert(err == nil)
+	verifAssert(r.DownstreamSourcePort == q.DownstreamSourcePort)
+	b2 := r.ToBytes()
+	verifAssert(string(b2) == string(b))
+}
+
+//@ contract lemmaFixBootFileURL
+func lemmaFixBootFileURL(data []byte) {
+	var q optBootFileURL
+	if q.FromBytes(data) != nil {
+		return
+	}
+	b := q.ToBytes()
+	var r optBootFileURL
+	err := r.FromBytes(b)
+	verifAssert(err == nil)
+	verifAssert(r.url == q.url)
+	b2 := r.ToBytes()
+	verifAssert(string(b2) == string(b))
+}
+
+//@ contract lemmaFixInterfaceID
+func lemmaFixInterfaceID(data []byte) {
+	var q optInterfaceID
+	if q.FromBytes(data) != nil {
+		return
+	}
+	b := q.ToBytes()
+	var r optInterfaceID
+	err := r.FromBytes(b)
+	verifAssert(err == nil)
+	verifAssert(string(r.ID) == string(q.ID))
+	b2 := r.ToBytes()
+	verifAssert(string(b2) == string(b))
+}
+
+//@ contract lemmaFixGeneric
+func lemmaFixGeneric(data []byte) {
+	var q OptionGeneric
+	if q.FromBytes(data) != nil {
+		return
+	}
+	b := q.ToBytes()
+	var r OptionGeneric
+	err := r.FromBytes(b)
+	verifAssert(err == nil)
+	verifAssert(string(r.OptionData) == string(q.OptionData))
+	b2 := r.ToBytes()
+	verifAssert(string(b2) == string(b))
+}
